@@ -74,13 +74,19 @@ CLAIMED = {
          "history property). The DateTime getters/clears it uses are proved for offset-0 values in unit cron_view; add_* are the C04/C05 contracts (variant B).",
     note=TB + "termination and panic-freedom are proved under the witness precondition of variant A only (an unsatisfiable schedule walks to the end of the range, where add_months panics: variant B lets that diverge and uses exec_allows_no_decreases_clause); DateTime::now() returns the uninterpreted clock_now() (any well-formed UTC value >= 1970; within one verification condition the same at every call, next() reads it once); std HashSet<u8> through vstd's model (group_hash_axioms); `last >= now` through the real PartialEq/PartialOrd/Ord impls proved in unit ord; derive(Clone) on CronSchedule (a clone continues identically) trusted; CronSchedule::parse is outside (C16).", ref="5 C17"),
  'C18': dict(
+    technique='contract-based deductive verification (Verus/Z3) of functions extracted mechanically from /repo; bounded Kani/CBMC harnesses (labelled bounded) for the table decoder from_tzif',
     text="Verus proves TimeZone::to_local_time_type(ts).utoff == tz_offset(tz, ts), the RFC 8536 reading written from the property: the type of "
          "the latest transition at or before ts (sorted table), and past the last transition or with none the POSIX TZ footer rule: fixed, or "
          "std/dst switching at Jn (29 Feb never counted), n (zero-based) and Mm.w.d (w-th weekday, 5 = last) dates at their local times, in "
-         "either hemisphere; weekdays_in_month, rule_to_local_timestamp, rule_to_local_time_type under contract. The byte decoder from_tzif is "
-         "NOT covered (iterator adapters and text footer are outside Verus; a bounded Kani harness did not finish in 15 min).",
-    note=TB + "holds for timestamps whose UTC year is within +-5_879_500 (rule dates of the first/last representable years are not constructible); the decode half (bytes -> tables/rule) is unverified; derive(Clone) on LocalTimeType modelled field-wise.", ref="5 C18"),
+         "either hemisphere; weekdays_in_month, rule_to_local_timestamp, rule_to_local_time_type under contract. Decode half: the footer parser "
+         "TransitionRule::from_tz_string and its field parsers are proved against a POSIX TZ grammar written as spec functions (posix_tz: "
+         "std offset [dst [offset],rule,rule], Jn | n | Mm.w.d, [/time], utoff = -offset, dst default std-1h): every well-formed ASCII footer "
+         "yields exactly the grammar's rule. The table decoder from_tzif (chunks_exact/zip/from_be_bytes, outside Verus) has BOUNDED Kani "
+         "stand-ins only: version-1 files with concrete counts (1 transition/1 type, 0/1) and symbolic table bytes decode to the big-endian "
+         "values of the bytes; larger counts and version-2/3 layouts do not finish and are unverified.",
+    note=TB + "holds for timestamps whose UTC year is within +-5_879_500 (rule dates of the first/last representable years are not constructible); table decoding beyond the bounded harnesses (v2/v3, more than one entry) is unverified; parse_int's numeric value (str::parse), the ASCII meaning of str::starts_with/ends_with/contains/trim_matches/from_utf8 and three UTF-8 axioms are trusted; negative /time values of v3 footers are outside the footer statement; derive(Clone) on LocalTimeType modelled field-wise.", ref="5 C18"),
  'C19': dict(
+    technique='contract-based deductive verification (Verus/Z3) of functions extracted mechanically from /repo; loop-free Kani/CBMC harness for Header::parse, bounded Kani harnesses (labelled bounded) and a syntactic exit-shape check for from_tzif',
     text="Verus proves (1) validate() returns Ok exactly on data satisfying tz_wf (every transition's type index has a type, types non-empty "
          "whenever a lookup can index them, rule months 1..=12, weeks 1..=5, days 0..=6, J 1..=365, n 0..=364), for tables of any length; (2) under "
          "tz_wf every index, unwrap, subtraction and conversion in to_local_time_type and the rule functions is safe for every timestamp in "
